@@ -434,6 +434,19 @@ func (cx *SpecCtx) eval(e Expr) sval {
 		}
 		v := cx.eval(x.X)
 		switch x.Op {
+		case "*":
+			// pointer dereference
+			if v.typ == nil {
+				cx.fail("dereference of untyped value %s", x.X)
+			}
+			pt := deref(v.typ)
+			if pt == nil {
+				cx.fail("dereference of non-pointer %s", x.X)
+			}
+			if _, isS := isStruct(pt); isS {
+				return sval{t: v.t, typ: pt, kind: "loc"}
+			}
+			return norm(sval{t: fmt.Sprintf("(select %s %s)", g.get(cx.st, g.sc.cellComp(pt)), v.t), typ: pt, kind: "val"})
 		case "!":
 			return sval{t: fmt.Sprintf("(not %s)", v.t), kind: "bool"}
 		case "-":
@@ -935,6 +948,31 @@ func (cx *SpecCtx) evalCall(x *ECall) sval {
 	case "cap":
 		v := arg(0)
 		return sval{t: fmt.Sprintf("(s-cap %s)", v.t), kind: "int"}
+	case "visited": // visited(L, k): key k has already been visited by the map range loop with ordinal L
+		lit, ok := x.Args[0].(*EInt)
+		if !ok {
+			cx.fail("visited(L, k): L must be a loop ordinal literal")
+		}
+		var key string
+		for _, l := range g.loops {
+			if l.ordinal == int(lit.Val.Int64()) {
+				for _, in := range l.header.Instrs {
+					if nx, ok := in.(*ssa.Next); ok {
+						if rng, ok := nx.Iter.(*ssa.Range); ok {
+							key = g.rangeVisitedKey(rng)
+						}
+					}
+				}
+			}
+		}
+		if key == "" {
+			cx.fail("visited(%s, ...): loop is not a map range loop", lit.Val)
+		}
+		k := arg(1)
+		if k.kind == "loc" {
+			k = cx.asValue(k)
+		}
+		return sval{t: fmt.Sprintf("(select %s %s)", g.get(cx.st, key), k.t), kind: "bool"}
 	case "strat": // strat(s, i): i-th byte of string s
 		sv := arg(0)
 		g.sc.declare("strat", "(declare-fun strat (Str Int) Int)")
@@ -1005,6 +1043,12 @@ func (cx *SpecCtx) evalCall(x *ECall) sval {
 			return a
 		}
 		return sval{t: fmt.Sprintf("(to_real %s)", a.t), kind: "real"}
+	case "floor": // floor of a real as an integer
+		a := arg(0)
+		if a.kind != "real" {
+			return a
+		}
+		return sval{t: fmt.Sprintf("(to_int %s)", a.t), kind: "int"}
 	case "sqrt":
 		a := arg(0)
 		return sval{t: fmt.Sprintf("(rsqrt %s)", a.t), kind: "real"}
@@ -1361,6 +1405,18 @@ func (cx *SpecCtx) locations(e Expr) []location {
 	case *EIndex:
 		// single element: over-approximate by the whole backing array / map
 		return cx.locations(&EStar{x.X})
+	case *EUnary:
+		if x.Op == "*" {
+			v := cx.eval(x.X)
+			pt := deref(v.typ)
+			if pt == nil {
+				cx.fail("modifies %s: not a pointer", e)
+			}
+			if _, isS := isStruct(pt); isS {
+				return cx.allFields(v.t, pt)
+			}
+			return []location{{comp: g.sc.cellComp(pt), ref: v.t}}
+		}
 	case *EIdent:
 		if key, _, ok := g.ghostVar(x.Name); ok {
 			return []location{{comp: key, pred: func(string) string { return "true" }}}
